@@ -841,6 +841,7 @@ fn main() {
     let mut evidence: Option<String> = None;
     let mut replay_dir = "/verif/replays".to_string();
     let mut replay: Option<String> = None;
+    let mut prop = "C11".to_string();
     let mut shard = (0usize, 1usize);
     let mut resume: Option<(usize, usize, u64, u8)> = None;
     let mut i = 1;
@@ -852,6 +853,7 @@ fn main() {
             "--evidence" => { evidence = Some(args[i + 1].clone()); i += 1 }
             "--replay-dir" => { replay_dir = args[i + 1].clone(); i += 1 }
             "--replay" => { replay = Some(args[i + 1].clone()); i += 1 }
+            "--prop" => { prop = args[i + 1].clone(); i += 1 }
             "--shard" => { let (a, b) = args[i + 1].split_once('/').unwrap(); shard = (a.parse().unwrap(), b.parse().unwrap()); i += 1 }
             "--resume" => { let v: Vec<u64> = args[i + 1].split(',').map(|x| x.parse().unwrap()).collect(); resume = Some((v[0] as usize, v[1] as usize, v[2], v[3] as u8)); i += 1 }
             x => panic!("unknown argument {x}"),
@@ -874,7 +876,7 @@ fn main() {
         "c17-worker" => worker_c17(&tier, shard.0, shard.1, resume),
         "c11-worker" => c11::worker_c11(&tier, shard.0, shard.1, resume.map(|r| r.0)),
         "c17" => main_c17(&tier, threads, evidence.as_deref(), &replay_dir, seed),
-        _ => c11::main_c11(&tier, threads, evidence.as_deref(), &replay_dir, seed),
+        _ => c11::main_c11(&tier, threads, evidence.as_deref(), &replay_dir, seed, &prop),
     };
     std::process::exit(rc);
 }
